@@ -28,6 +28,15 @@
 (* writes: "counter_first" is the code; "record_first" is the unsafe order *)
 (* (the specification is also run with it, expecting TLC to refute         *)
 (* IdsDistinct / Refines: the invariants are not vacuous).                 *)
+(* CounterWrite selects how the stored counter is advanced: "merge" is the  *)
+(* code (one atomic RocksDB merge, += 1); "rmw" reads the counter and      *)
+(* writes it back in two steps - equivalent for one caller, not for two.   *)
+(* NT callers (threads; thread t owns the node store of agent t, as each   *)
+(* agent task owns its store) interleave their steps freely; they share    *)
+(* the plane: KeyStore.count and the database.  With NT = 2 and a clean    *)
+(* Reopen the code's variant keeps the laws, "rmw" is refuted (an          *)
+(* increment of the stored counter is lost, the next new name after a      *)
+(* reopen gets an identifier that is taken).                               *)
 (* The in-memory store has no persistent state: a kill loses everything by *)
 (* design; its only multi-step hand-over (Drop -> waiting node_store) is   *)
 (* in-process and is Store.tla's Restart("handover" / "abandon").          *)
@@ -35,20 +44,24 @@
 (* Ghost state: abs = Store.tla's store (what the writes that took effect  *)
 (* imply for each name), acked = the identifier each name was told.        *)
 (***************************************************************************)
-EXTENDS Naturals, FiniteSets, TLC
+EXTENDS Naturals, Sequences, FiniteSets, TLC
 
 CONSTANTS NA, NI, NK, NV,
+          NT,           \* concurrent callers (1: sequential histories)
           OpSet,        \* the operations explored (a subset of Ops: keeps larger scopes tractable)
           MaxId,        \* bound on identifiers handed out (state constraint)
-          AllocOrder    \* "counter_first" | "record_first"
+          AllocOrder,   \* "counter_first" | "record_first"
+          CounterWrite, \* "merge" | "rmw" | "max" (a proposed repair: merge operator max(stored, id))
+          WithCrash     \* BOOLEAN: SIGKILL at any moment (otherwise only the clean Reopen)
 
-Agents == 1..NA
-Items  == 1..NI
-Keys   == 1..NK
-Vals   == 1..NV
-None   == 0
-Names  == Agents \X Items
-Ids    == 1..MaxId
+Agents  == 1..NA
+Items   == 1..NI
+Keys    == 1..NK
+Vals    == 1..NV
+None    == 0
+Names   == Agents \X Items
+Ids     == 1..MaxId
+Threads == 1..NT
 
 VARIABLES pctr, prec, pval, pmap, mctr, pc, acked, abs, lastStep
 pvars == <<pctr, prec, pval, pmap>>
@@ -58,12 +71,13 @@ View  == <<pctr, prec, pval, pmap, mctr, pc, acked, abs>>
 EmptyMap == [k \in Keys |-> None]
 Empty    == [v |-> None, m |-> EmptyMap]
 Idle     == [op |-> "none"]
+AllIdle  == \A t \in Threads : pc[t] = Idle
 
 Init == /\ pctr = 0 /\ prec = [n \in Names |-> 0]
         /\ pval = [d \in Ids |-> None] /\ pmap = [d \in Ids |-> EmptyMap]
-        /\ mctr = 0 /\ pc = Idle
+        /\ mctr = 0 /\ pc = [t \in Threads |-> Idle]
         /\ acked = [n \in Names |-> 0] /\ abs = [n \in Names |-> Empty]
-        /\ lastStep = "init"
+        /\ lastStep = [s |-> "init", t |-> 0]
 
 ValueOps == {"put", "delete", "get"}
 MapOps   == {"update", "remove", "clear", "read"}
@@ -73,85 +87,108 @@ Ops      == {"idfor"} \cup ValueOps \cup MapOps
 Allowed(op, n) == /\ op \in ValueOps => abs[n].m = EmptyMap
                   /\ op \in MapOps => abs[n].v = None
 
-(* a call is made.  It starts with KeyStore::id_for: a get on the record; a first-seen name takes the
-   next number of the in-memory counter (count.fetch_add) and goes on to the two allocation writes *)
-Begin(op, n, key, v) ==
-    /\ pc = Idle /\ Allowed(op, n)
+(* the persistent steps of the allocation of an identifier, in order *)
+CtrSteps   == IF CounterWrite = "rmw" THEN <<"ctr_read", "ctr_write">> ELSE <<"ctr">>
+AllocSteps == IF AllocOrder = "counter_first" THEN CtrSteps \o <<"rec">> ELSE <<"rec">> \o CtrSteps
+
+(* a call is made by thread t.  It starts with KeyStore::id_for: a get on the record; a first-seen name
+   takes the next number of the shared in-memory counter (count.fetch_add, atomic) and goes on to the
+   allocation steps.  A node store belongs to one task: with several threads, thread t works on agent t
+   and no two calls are in flight on one name. *)
+Begin(t, op, n, key, v) ==
+    /\ pc[t] = Idle /\ Allowed(op, n)
+    /\ NT > 1 => n[1] = t
     /\ IF prec[n] # 0
-         THEN /\ pc' = [op |-> op, n |-> n, key |-> key, v |-> v, step |-> "write", id |-> prec[n], out |-> 0]
+         THEN /\ pc' = [pc EXCEPT ![t] = [op |-> op, n |-> n, key |-> key, v |-> v, step |-> "write", k |-> 0,
+                                          id |-> prec[n], seen |-> 0, out |-> 0]]
               /\ mctr' = mctr
          ELSE /\ mctr < MaxId
               /\ mctr' = mctr + 1
-              /\ pc' = [op |-> op, n |-> n, key |-> key, v |-> v, step |-> "alloc1", id |-> mctr + 1, out |-> 0]
-    /\ lastStep' = "begin"
+              /\ pc' = [pc EXCEPT ![t] = [op |-> op, n |-> n, key |-> key, v |-> v, step |-> "alloc", k |-> 1,
+                                          id |-> mctr + 1, seen |-> 0, out |-> 0]]
+    /\ lastStep' = [s |-> "begin", t |-> t]
     /\ UNCHANGED <<pvars, acked, abs>>
 
-AdvanceCounter == pctr' = pctr + 1 /\ UNCHANGED <<prec, pval, pmap>>
-WriteRecord    == prec' = [prec EXCEPT ![pc.n] = pc.id] /\ UNCHANGED <<pctr, pval, pmap>>
-
-(* first persistent write of the allocation *)
-Alloc1 ==
-    /\ pc # Idle /\ pc.step = "alloc1"
-    /\ IF AllocOrder = "counter_first" THEN AdvanceCounter ELSE WriteRecord
-    /\ pc' = [pc EXCEPT !.step = "alloc2"]
-    /\ lastStep' = "alloc1"
-    /\ UNCHANGED <<mctr, acked, abs>>
-(* second persistent write of the allocation *)
-Alloc2 ==
-    /\ pc # Idle /\ pc.step = "alloc2"
-    /\ IF AllocOrder = "counter_first" THEN WriteRecord ELSE AdvanceCounter
-    /\ pc' = [pc EXCEPT !.step = "write"]
-    /\ lastStep' = "alloc2"
+(* one step of the allocation: merge('counter', 1) | get('counter') | put('counter', seen + 1) | put(record, id) *)
+AllocStep(t) ==
+    /\ pc[t] # Idle /\ pc[t].step = "alloc"
+    /\ LET what == AllocSteps[pc[t].k]
+           more == pc[t].k < Len(AllocSteps)
+           nxt  == IF more THEN [pc[t] EXCEPT !.k = @ + 1] ELSE [pc[t] EXCEPT !.step = "write"] IN
+       CASE what = "ctr" ->
+              /\ pctr' = IF CounterWrite = "max" THEN (IF pc[t].id > pctr THEN pc[t].id ELSE pctr) ELSE pctr + 1
+              /\ UNCHANGED <<prec, pval, pmap>>
+              /\ pc' = [pc EXCEPT ![t] = nxt]
+         [] what = "ctr_read" ->
+              /\ UNCHANGED pvars
+              /\ pc' = [pc EXCEPT ![t] = [nxt EXCEPT !.seen = pctr]]
+         [] what = "ctr_write" ->
+              /\ pctr' = pc[t].seen + 1 /\ UNCHANGED <<prec, pval, pmap>>
+              /\ pc' = [pc EXCEPT ![t] = nxt]
+         [] what = "rec" ->
+              /\ prec' = [prec EXCEPT ![pc[t].n] = pc[t].id] /\ UNCHANGED <<pctr, pval, pmap>>
+              /\ pc' = [pc EXCEPT ![t] = nxt]
+    /\ lastStep' = [s |-> "alloc", t |-> t]
     /\ UNCHANGED <<mctr, acked, abs>>
 
 (* the operation's own single write (none for id_for and the reads), addressed by the lane id *)
-Write ==
-    /\ pc # Idle /\ pc.step = "write"
-    /\ LET d == pc.id  n == pc.n IN
-       CASE pc.op = "put" ->
-              /\ pval' = [pval EXCEPT ![d] = pc.v] /\ UNCHANGED <<pctr, prec, pmap>>
-              /\ abs' = [abs EXCEPT ![n].v = pc.v] /\ pc' = [pc EXCEPT !.step = "ack"]
-         [] pc.op = "delete" ->
+Write(t) ==
+    /\ pc[t] # Idle /\ pc[t].step = "write"
+    /\ LET d == pc[t].id  n == pc[t].n  c == pc[t]
+           done == [pc EXCEPT ![t].step = "ack"] IN
+       CASE c.op = "put" ->
+              /\ pval' = [pval EXCEPT ![d] = c.v] /\ UNCHANGED <<pctr, prec, pmap>>
+              /\ abs' = [abs EXCEPT ![n].v = c.v] /\ pc' = done
+         [] c.op = "delete" ->
               /\ pval' = [pval EXCEPT ![d] = None] /\ UNCHANGED <<pctr, prec, pmap>>
-              /\ abs' = [abs EXCEPT ![n].v = None] /\ pc' = [pc EXCEPT !.step = "ack"]
-         [] pc.op = "update" ->
-              /\ pmap' = [pmap EXCEPT ![d][pc.key] = pc.v] /\ UNCHANGED <<pctr, prec, pval>>
-              /\ abs' = [abs EXCEPT ![n].m[pc.key] = pc.v] /\ pc' = [pc EXCEPT !.step = "ack"]
-         [] pc.op = "remove" ->
-              /\ pmap' = [pmap EXCEPT ![d][pc.key] = None] /\ UNCHANGED <<pctr, prec, pval>>
-              /\ abs' = [abs EXCEPT ![n].m[pc.key] = None] /\ pc' = [pc EXCEPT !.step = "ack"]
-         [] pc.op = "clear" ->
+              /\ abs' = [abs EXCEPT ![n].v = None] /\ pc' = done
+         [] c.op = "update" ->
+              /\ pmap' = [pmap EXCEPT ![d][c.key] = c.v] /\ UNCHANGED <<pctr, prec, pval>>
+              /\ abs' = [abs EXCEPT ![n].m[c.key] = c.v] /\ pc' = done
+         [] c.op = "remove" ->
+              /\ pmap' = [pmap EXCEPT ![d][c.key] = None] /\ UNCHANGED <<pctr, prec, pval>>
+              /\ abs' = [abs EXCEPT ![n].m[c.key] = None] /\ pc' = done
+         [] c.op = "clear" ->
               /\ pmap' = [pmap EXCEPT ![d] = EmptyMap] /\ UNCHANGED <<pctr, prec, pval>>
-              /\ abs' = [abs EXCEPT ![n].m = EmptyMap] /\ pc' = [pc EXCEPT !.step = "ack"]
-         [] pc.op = "get" ->
-              /\ UNCHANGED <<pvars, abs>> /\ pc' = [pc EXCEPT !.step = "ack", !.out = pval[d]]
-         [] pc.op = "read" ->
-              /\ UNCHANGED <<pvars, abs>> /\ pc' = [pc EXCEPT !.step = "ack", !.out = pmap[d]]
+              /\ abs' = [abs EXCEPT ![n].m = EmptyMap] /\ pc' = done
+         [] c.op = "get" ->
+              /\ UNCHANGED <<pvars, abs>> /\ pc' = [pc EXCEPT ![t].step = "ack", ![t].out = pval[d]]
+         [] c.op = "read" ->
+              /\ UNCHANGED <<pvars, abs>> /\ pc' = [pc EXCEPT ![t].step = "ack", ![t].out = pmap[d]]
          [] OTHER ->
-              /\ UNCHANGED <<pvars, abs>> /\ pc' = [pc EXCEPT !.step = "ack"]
-    /\ lastStep' = "write"
+              /\ UNCHANGED <<pvars, abs>> /\ pc' = done
+    /\ lastStep' = [s |-> "write", t |-> t]
     /\ UNCHANGED <<mctr, acked>>
 
 (* the call returns: the caller now knows the identifier (and the result) *)
-Ack ==
-    /\ pc # Idle /\ pc.step = "ack"
-    /\ acked' = [acked EXCEPT ![pc.n] = pc.id]
-    /\ pc' = Idle
-    /\ lastStep' = "ack"
+Ack(t) ==
+    /\ pc[t] # Idle /\ pc[t].step = "ack"
+    /\ acked' = [acked EXCEPT ![pc[t].n] = pc[t].id]
+    /\ pc' = [pc EXCEPT ![t] = Idle]
+    /\ lastStep' = [s |-> "ack", t |-> t]
     /\ UNCHANGED <<pvars, mctr, abs>>
 
 (* SIGKILL at any moment - between any two steps of any call, or while idle - followed by opening
    the database again: only the persistent state survives; initialise_with reads the counter *)
 Crash ==
-    /\ pc' = Idle /\ mctr' = pctr
-    /\ lastStep' = "crash"
+    /\ WithCrash
+    /\ pc' = [t \in Threads |-> Idle] /\ mctr' = pctr
+    /\ lastStep' = [s |-> "crash", t |-> 0]
+    /\ UNCHANGED <<pvars, acked, abs>>
+(* clean shutdown (no call in flight) and reopen *)
+Reopen ==
+    /\ AllIdle
+    /\ pc' = pc /\ mctr' = pctr
+    /\ lastStep' = [s |-> "reopen", t |-> 0]
     /\ UNCHANGED <<pvars, acked, abs>>
 
-Next == \/ \E op \in OpSet, n \in Names, key \in Keys, v \in Vals :
-             /\ (op \notin {"update", "remove"} => key = 1)
-             /\ (op \notin {"put", "update"} => v = 1)
-             /\ Begin(op, n, key, v)
-        \/ Alloc1 \/ Alloc2 \/ Write \/ Ack \/ Crash
+Next == \/ \E t \in Threads :
+             \/ \E op \in OpSet, n \in Names, key \in Keys, v \in Vals :
+                   /\ (op \notin {"update", "remove"} => key = 1)
+                   /\ (op \notin {"put", "update"} => v = 1)
+                   /\ Begin(t, op, n, key, v)
+             \/ AllocStep(t) \/ Write(t) \/ Ack(t)
+        \/ Crash \/ Reopen
 
 Spec == Init /\ [][Next]_vars
 
@@ -165,19 +202,25 @@ IdsDistinct == \A n1, n2 \in Names : (n1 # n2 /\ prec[n1] # 0 /\ prec[n2] # 0) =
 AckedStable == \A n \in Names : acked[n] # 0 => prec[n] = acked[n]
 AckedNeverChanges == [][\A n \in Names : acked[n] # 0 => acked'[n] = acked[n]]_vars
 (* the identifier handed to the caller is not the identifier of another name *)
-AckFresh == [][lastStep' = "ack" => \A n \in Names : (n # pc.n /\ acked[n] # 0) => acked[n] # pc.id]_vars
-(* why it works: the stored counter is never behind a recorded identifier, the in-memory one never
-   behind the stored one (this is what the order of the two writes is for) *)
-CounterCovers == AllocOrder = "counter_first" => (\A n \in Names : prec[n] <= pctr) /\ pctr <= mctr
+AckFresh == [][lastStep'.s = "ack" =>
+                 \A n \in Names : (n # pc[lastStep'.t].n /\ acked[n] # 0) => acked[n] # pc[lastStep'.t].id]_vars
+(* why it works.  One caller: the stored counter is never behind a recorded identifier, the in-memory one
+   never behind the stored one (this is what the order of the two writes is for).  Several callers: the same
+   whenever no call is in flight, i.e. at every clean reopen (this is what the atomic merge is for). *)
+CounterCovers == (AllocOrder = "counter_first" /\ (NT = 1 \/ AllIdle \/ CounterWrite = "max")) =>
+                    (\A n \in Names : prec[n] <= pctr) /\ pctr <= mctr
 (* isolation and read-your-writes through any crash: what each name reads back (its record's value
    slot and map range) is exactly what the writes to that name imply *)
 Stored(n) == IF prec[n] = 0 THEN Empty ELSE [v |-> pval[prec[n]], m |-> pmap[prec[n]]]
 Refines == \A n \in Names : Stored(n) = abs[n]
-(* a step of a call on one name never changes what another name holds; a crash changes nothing *)
-Isolation == [][\A n \in Names : (pc = Idle \/ n # pc.n \/ lastStep' = "crash") => Stored(n)' = Stored(n)]_vars
+(* a step of a call on one name never changes what another name holds; a crash / reopen changes nothing *)
+Isolation == [][\A n \in Names : (lastStep'.t = 0 \/ pc[lastStep'.t] = Idle \/ n # pc[lastStep'.t].n) =>
+                                      Stored(n)' = Stored(n)]_vars
 (* results *)
-ReadResult == [][(lastStep' = "write" /\ pc.op = "get") => pc'.out = abs[pc.n].v]_vars
-ReadMapResult == [][(lastStep' = "write" /\ pc.op = "read") => pc'.out = abs[pc.n].m]_vars
+ReadResult == [][(lastStep'.s = "write" /\ pc[lastStep'.t].op = "get") =>
+                    pc'[lastStep'.t].out = abs[pc[lastStep'.t].n].v]_vars
+ReadMapResult == [][(lastStep'.s = "write" /\ pc[lastStep'.t].op = "read") =>
+                    pc'[lastStep'.t].out = abs[pc[lastStep'.t].n].m]_vars
 TypeOK == /\ pctr \in 0..MaxId + 1 /\ mctr \in 0..MaxId + 1
           /\ \A n \in Names : prec[n] \in 0..MaxId
 =============================================================================
